@@ -22,73 +22,82 @@ def rule_R15(ctx, rep, config="c-lib"):
     L = loops[0]
     H = f.bmap[L["header"]]
     body = L["body"]
+    # the loop-carried counter: a header phi with a constant step of +1 / -1
+    cands = []
+    for xi in H.insts:
+        if xi.op != "phi":
+            continue
+        init = [iv for (iv, pb) in xi.d["incoming"] if pb not in body]
+        step = [iv for (iv, pb) in xi.d["incoming"] if pb in body]
+        if len(init) != 1 or not step:
+            continue
+        d = lin(f, step[0], 0, 0).add(lin(f, {"k": "i", "v": xi.id}, 0, 0), -1)
+        if d.is_const() and d.c in (1, -1):
+            cands.append((xi, lin(f, init[0], 0, 3), d.c))
     found = None
-    for tb in [H] + [f.bmap[x] for x in L["latches"]]:
-        t = tb.term
-        if t is None or t.op != "br" or len(t.ops) != 3:
-            continue
-        td, fd = t.ops[2]["v"], t.ops[1]["v"]
-        if (td in body) == (fd in body):
-            continue
-        c = f.inst(t.ops[0])
-        if c is None or c.op != "icmp":
-            continue
-        stay = td in body
-        pred = c.d["pred"]
-        if not stay:
-            pred = {"slt": "sge", "sle": "sgt", "sgt": "sle", "sge": "slt"}.get(pred, pred)
-        for (xo, yo, pr) in ((c.ops[0], c.ops[1], pred), (c.ops[1], c.ops[0], {"slt": "sgt", "sle": "sge", "sgt": "slt", "sge": "sle"}.get(pred, pred))):
-            x = strip_int_casts(f, xo)
-            xi = f.inst(x)
-            if xi is None or xi.op != "phi" or xi.block.name != L["header"]:
+    for (xi, init, stepc) in cands:
+        atom = list(lin(f, {"k": "i", "v": xi.id}, 0, 0).t.keys())[0]
+        for tb in [H] + [f.bmap[x] for x in L["latches"]]:
+            t = tb.term
+            if t is None or t.op != "br" or len(t.ops) != 3:
                 continue
-            init = [iv for (iv, pb) in xi.d["incoming"] if pb not in body]
-            step = [iv for (iv, pb) in xi.d["incoming"] if pb in body]
-            if len(init) != 1 or not step:
+            td, fd = t.ops[2]["v"], t.ops[1]["v"]
+            if (td in body) == (fd in body):
                 continue
-            d = lin(f, step[0], 0, 2).add(lin(f, x, 0, 2), -1)
-            if not d.is_const() or d.c not in (1, -1):
+            c = f.inst(t.ops[0])
+            if c is None or c.op != "icmp":
                 continue
-            found = (xi, lin(f, init[0], 0, 3), d.c, pr, lin(f, yo, 0, 3))
+            stay = td in body
+            pred = c.d["pred"]
+            if not stay:
+                pred = {"slt": "sge", "sle": "sgt", "sgt": "sle", "sge": "slt"}.get(pred, pred)
+            for (xo, yo, pr) in ((c.ops[0], c.ops[1], pred), (c.ops[1], c.ops[0], {"slt": "sgt", "sle": "sge", "sgt": "slt", "sge": "sle"}.get(pred, pred))):
+                xl = lin(f, xo, 0, 0)
+                if set(xl.t.keys()) != set([atom]) or xl.t[atom] != 1:
+                    continue
+                found = (xi, init, stepc, pr, lin(f, yo, 0, 3), xl.c, atom)
     if found is None:
         raise AnalysisBroken("check_cached_transition_set: loop shape not recognised")
-    xi, init, stepc, pr, bound = found
+    xi, init, stepc, pr, bound, c2, atom = found
+    # the distance examined: dists[counter + c1]
+    c1 = None
+    for i in f.all_insts():
+        if i.op == "load" and i.block.name in body:
+            pa = resolve_addr(f, i.ops[0])
+            if pa.steps and pa.steps[-1][0] in ("ptr", "idx"):
+                lp = loaded_from(f, pa.root[1]) if pa.root[0] == "val" else None
+                if lp is not None and lp.last_field() == "set.dists":
+                    il = lin(f, pa.steps[-1][1], 0, 0)
+                    if set(il.t.keys()) == set([atom]) and il.t[atom] == 1:
+                        c1 = il.c
+    if c1 is not None:
+        rep.ok("R15", "check_cached_transition_set/reads-dists[i]")
+    else:
+        rep.violation("R15", "check_cached_transition_set/reads-dists[i]", "the distance examined is not dists[i] of the cached set", where=f.where())
+        c1 = 0
     # the element count: load of set_core.n_start_sits
     natoms = [a for a in (init.atoms() + bound.atoms()) if a.endswith("set_core.n_start_sits]")]
     lo = hi = None
+    # the counter takes the values init, init + step, ...; an iteration runs while (counter + c2) pr bound; it reads index counter + c1
     if stepc == -1:
-        # i = init; i >= lo (or > lo-1); i--
-        hi = init
+        hi = init.add(Lin(c1))
         if pr == "sge" and bound.is_const():
-            lo = bound.c
+            lo = bound.c - c2 + c1
         elif pr == "sgt" and bound.is_const():
-            lo = bound.c + 1
+            lo = bound.c + 1 - c2 + c1
     else:
-        lo = init.c if init.is_const() else None
+        lo = init.c + c1 if init.is_const() else None
         if pr == "slt":
-            hi = bound.add(Lin(-1))
+            hi = bound.add(Lin(-1 - c2 + c1))
         elif pr == "sle":
-            hi = bound
+            hi = bound.add(Lin(-c2 + c1))
     ok = lo == 0 and hi is not None and len(natoms) == 1 and hi == Lin(-1, {natoms[0]: 1})
     if ok:
-        rep.ok("R15", "check_cached_transition_set/covers-all-start-situations", sample={"first": repr(init), "step": stepc, "last": 0 if stepc == -1 else repr(hi)})
+        rep.ok("R15", "check_cached_transition_set/covers-all-start-situations", sample={"first": repr(init.add(Lin(c1))), "step": stepc, "last": 0 if stepc == -1 else repr(hi)})
     else:
         rep.violation("R15", "check_cached_transition_set/covers-all-start-situations", "the cache validity test examines the start situations %s..%s of the cached set, not all of "
                       "[0, n_start_sits): a set built in another context can be reused (wrong acceptance, late or missing error report, lost ambiguity)" % (
                           lo if stepc == 1 else repr(hi), repr(hi) if stepc == 1 else lo), where=xi.where() if xi.d.get("loc") else f.where(), witness=[f.where()])
-    # dists[i] is what is examined
-    okd = False
-    for i in f.all_insts():
-        if i.op == "load" and i.block.name in body:
-            pa = resolve_addr(f, i.ops[0])
-            if pa.steps and pa.steps[-1][0] in ("ptr", "idx") and strip_int_casts(f, pa.steps[-1][1]) == {"k": "i", "v": xi.id}:
-                lp = loaded_from(f, pa.root[1]) if pa.root[0] == "val" else None
-                if lp is not None and lp.last_field() == "set.dists":
-                    okd = True
-    if okd:
-        rep.ok("R15", "check_cached_transition_set/reads-dists[i]")
-    else:
-        rep.violation("R15", "check_cached_transition_set/reads-dists[i]", "the distance examined is not dists[i] of the cached set", where=f.where())
     # what is compared: the origin *sets* (elements of the parser list), not a part of them
     cmps = [i for i in f.all_insts() if i.op == "icmp" and i.block.name in body and i.d["pred"] in ("eq", "ne") and i.ty == "i1"
             and not any(const_int(o) is not None or o.get("k") == "null" for o in i.ops)]
